@@ -99,13 +99,15 @@ def mk(docs, job, cfg):
                         flags=sorted(x.path_flags))
 
         for i, (kind, topic, n) in enumerate(skel):
+            if topic == 'T':
+                topic = 't' * job.get('topic_len', 240)     # ':T' = the long topic of this job
             q = queues.setdefault(topic, [])
             d = delivered.setdefault(topic, 0)
             if kind in ('a', 'A', 'r', 'L', 'Ar', 'AL', 'AG', 'F'):
                 ents = []
                 wtopic = topic
                 if kind in ('L', 'AL'):
-                    wtopic = topic * 240          # a topic name that does not fit the 256-byte entry header
+                    wtopic = topic * job.get('topic_len', 240)          # a long topic name (240: does not fit the 256-byte entry header)
                     queues.setdefault(wtopic, [])
                     delivered.setdefault(wtopic, 0)
                     q = queues[wtopic]
